@@ -55,7 +55,7 @@ var binIdx = []uint32{0, 1, 5}
 
 const nKinds = 6   // absent, map, store(valid), store(policy unset), store(policy 99), index
 const nInputs = 15 // see mkInput
-const nFilters = 13
+const nFilters = 17
 const nBinaries = 3
 const nCursors = 4
 const nDebug = 3
@@ -116,7 +116,7 @@ func mkFilter(m *pbsubstreams.Module, f int) {
 		return
 	}
 	f--
-	target := []string{"a", "b", "missing"}[f/4]
+	target := []string{"a", "b", "missing", ""}[f/4] // "" = a present filter message naming no module
 	bf := &pbsubstreams.Module_BlockFilter{Module: target}
 	switch f % 4 {
 	case 0: // query absent
@@ -399,7 +399,7 @@ func Run(ctx *core.Ctx) int {
 	ctx.Cov["distinct_nontrivial"] = st.NonTrivial
 	ctx.Cov["exhaustive"] = true
 	ctx.Cov["by_family"] = counts
-	ctx.Cov["rule"] = fmt.Sprintf("request messages built from per-field domains that include 'absent' (kind: absent/map/store valid/store policy unset/store policy 99/index; name: a,b,'',a:b,'bad name!'; inputs: lists of <=%d over 15 shapes incl. no one-of, empty source type, source or param spelled like a module, map/store to self/other/missing, store modes 0,1,2,7; binary index 0/1/5; binaries none/valid/unknown type; block filter none or -> a/b/missing x query absent/string/'-a'/from-params; initial block 0,1,2^64-1). One module: full product. Two modules: 120 first x all second shapes (duplicate names, self/mutual/dangling references). Three modules: cycles through inputs and filters. Request fields: output x start {-5,0,1,10} x stop x cursor {'',garbage,final,LIB>block} x mode x debug list on 5 module configs. Every message is marshalled and unmarshalled first. Each goes through ValidateTier1Request and, when accepted, NewOutputModuleGraph (hashing, staging), BuildRequestDetails, BuildTier1RequestPlan; and ValidateTier2Request + staging. Oracle: returns (value or error) - no panic, no 30 s hang, heap below 24 GiB. Non-trivial: the message is rejected at some stage (it differs from a valid request in at least one field); fully accepted messages are counted as trivial.", maxInputs)
+	ctx.Cov["rule"] = fmt.Sprintf("request messages built from per-field domains that include 'absent' (kind: absent/map/store valid/store policy unset/store policy 99/index; name: a,b,'',a:b,'bad name!'; inputs: lists of <=%d over 15 shapes incl. no one-of, empty source type, source or param spelled like a module, map/store to self/other/missing, store modes 0,1,2,7; binary index 0/1/5; binaries none/valid/unknown type; block filter none or -> a/b/missing/'' x query absent/string/'-a'/from-params; initial block 0,1,2^64-1). One module: full product. Two modules: 120 first x all second shapes (duplicate names, self/mutual/dangling references). Three modules: cycles through inputs and filters. Request fields: output x start {-5,0,1,10} x stop x cursor {'',garbage,final,LIB>block} x mode x debug list on 5 module configs. Every message is marshalled and unmarshalled first. Each goes through ValidateTier1Request and, when accepted, NewOutputModuleGraph (hashing, staging), BuildRequestDetails, BuildTier1RequestPlan; and ValidateTier2Request + staging. Oracle: returns (value or error) - no panic, no 30 s hang, heap below 24 GiB. Non-trivial: the message is rejected at some stage (it differs from a valid request in at least one field); fully accepted messages are counted as trivial.", maxInputs)
 	ctx.Assume = []string{"in-process: a panic is recovered per case, a hang is detected by a watchdog goroutine, memory by a heap guard (the design's sub-process per shard was not needed)"}
 	return ctx.Finish(core.JSONRecheck(ctx.Prop, Eval))
 }
